@@ -165,6 +165,19 @@ struct Ctx
         fflush(log);
     }
 
+    // a digest of what the case computed ("G idx hex"): the runner compares it between the run inside the worker's sequence and a run of the case alone
+    void digest(uint64_t h)
+    {
+        fprintf(log, "G %ld %016llx\n", idx, (unsigned long long) h);
+        fflush(log);
+    }
+    static uint64_t fnv_bytes(const void* p, size_t n, uint64_t h = 1469598103934665603ULL)
+    {
+        const unsigned char* b = (const unsigned char*) p;
+        for (size_t i = 0; i < n; i++) { h ^= b[i]; h *= 1099511628211ULL; }
+        return h;
+    }
+
     // say what the open case is running (solver class, ...): used by the runner to name a case that never came back (CPU watchdog)
     void set_where(const std::string& w)
     {
@@ -210,7 +223,11 @@ const char* vf_driver();
 long vf_ncases(const vf::Ctx&);
 void vf_run_case(vf::Ctx&, long idx);
 // optional one-time setup per worker process (default: weak no-op)
+#ifndef VF_HAVE_SETUP
 __attribute__((weak)) void vf_setup(vf::Ctx&) {}
+#else
+void vf_setup(vf::Ctx&);
+#endif
 
 #ifdef VF_MAIN
 #include <cxxabi.h>
